@@ -120,6 +120,41 @@ func (e *progressEngine) callWeight(call *ast.CallExpr) int {
 	return e.summary(callee)
 }
 
+// unknownAmount finds, in n or in the package functions called from it (two
+// levels), a (*bufio.Reader).Discard whose argument is not a constant.
+func (e *progressEngine) unknownAmount(n ast.Node) token.Pos {
+	var at token.Pos
+	var visit func(n ast.Node, depth int)
+	visit = func(n ast.Node, depth int) {
+		ast.Inspect(n, func(m ast.Node) bool {
+			call, ok := m.(*ast.CallExpr)
+			if !ok || at.IsValid() {
+				return !at.IsValid()
+			}
+			callee := load.Callee(e.info, call)
+			if callee == nil {
+				return true
+			}
+			if sig, _ := callee.Type().(*types.Signature); sig != nil && sig.Recv() != nil && strings.HasSuffix(sig.Recv().Type().String(), "bufio.Reader") && callee.Name() == "Discard" {
+				if len(call.Args) == 1 {
+					if _, isC := constInt(e.info, call.Args[0]); !isC {
+						at = call.Pos()
+					}
+				}
+				return true
+			}
+			if callee.Pkg() == e.pkg.Types && depth < 2 {
+				if fd := e.p.Decl(callee); fd != nil && fd.Body != nil {
+					visit(fd.Body, depth+1)
+				}
+			}
+			return true
+		})
+	}
+	visit(n, 0)
+	return at
+}
+
 func (e *progressEngine) nodeWeight(n ast.Node) int {
 	w := 0
 	ast.Inspect(n, func(m ast.Node) bool {
@@ -458,6 +493,12 @@ func checkLoopProgress(c *core.Ctx, p *load.Prog, rule string, files ...string) 
 					recs = append(recs, rec{key: key, pos: p.Pos(loop.Pos()), ok: true})
 					return true
 				}
+			}
+			// a call that takes a number of bytes the rule cannot evaluate
+			// (Discard(n), n computed): how much a cycle consumes is not known
+			if at := e.unknownAmount(loop.Body); at.IsValid() {
+				c.Undecide("%s: loop at %s consumes input through a call at %s whose amount is computed (Discard(n)): whether every cycle takes at least one byte is not evaluated", name, p.Pos(loop.Pos()), p.Pos(at))
+				return true
 			}
 			where := ""
 			if via != nil && len(via.Nodes) > 0 {
